@@ -155,9 +155,33 @@ func (r *rewriter) stmt(s ast.Stmt) ast.Stmt {
 		x.Call = r.expr(x.Call).(*ast.CallExpr)
 		pos := r.fset.Position(x.Pos())
 		name := fmt.Sprintf("%s:%d", filepath.Base(pos.Filename), pos.Line)
+		// a go statement evaluates the function value and the arguments in the calling goroutine: bind them to
+		// temporaries first (a plain `go func(){...}()` needs none)
+		var pre []ast.Stmt
+		if _, lit := x.Call.Fun.(*ast.FuncLit); !lit || len(x.Call.Args) > 0 {
+			bind := func(e ast.Expr) ast.Expr {
+				if _, lit := e.(*ast.BasicLit); lit {
+					return e // a literal has no evaluation time (and must stay an untyped constant)
+				}
+				tmp := "_vg" + strconv.Itoa(r.tmp)
+				r.tmp++
+				pre = append(pre, &ast.AssignStmt{Lhs: []ast.Expr{ast.NewIdent(tmp)}, Tok: token.DEFINE, Rhs: []ast.Expr{e}})
+				return ast.NewIdent(tmp)
+			}
+			if !lit {
+				x.Call.Fun = bind(x.Call.Fun)
+			}
+			for i := range x.Call.Args {
+				x.Call.Args[i] = bind(x.Call.Args[i])
+			}
+		}
 		body := &ast.BlockStmt{List: []ast.Stmt{&ast.ExprStmt{X: x.Call}}}
-		return &ast.ExprStmt{X: call(sel("vsched", "Go"), &ast.BasicLit{Kind: token.STRING, Value: strconv.Quote(name)},
+		spawn := &ast.ExprStmt{X: call(sel("vsched", "Go"), &ast.BasicLit{Kind: token.STRING, Value: strconv.Quote(name)},
 			&ast.FuncLit{Type: &ast.FuncType{Params: &ast.FieldList{}}, Body: body})}
+		if len(pre) == 0 {
+			return spawn
+		}
+		return &ast.BlockStmt{List: append(pre, spawn)}
 	case *ast.DeferStmt:
 		x.Call = r.expr(x.Call).(*ast.CallExpr)
 	case *ast.ReturnStmt:
